@@ -144,6 +144,30 @@ def helpers_work(n, variant, out):
             got = np.asarray(H.inv(conv(sub))) if lab == '(n,)' else None
             if got is not None:
                 chk('inv', got, invs, lab)
+    # complex-valued tensors: the helpers are algebraic identities over the complex numbers as well
+    if variant == 'numpy':
+        zc = 1.0 + 0.5j
+        d_ = ref_det(mats)
+        ok_ = d_ != 0
+        sub_ = mats[:, :, ok_]
+        Ac = sub_.astype(complex) * zc
+
+        def chk_c(name, got, want):
+            out.ev()
+            got, want = np.asarray(got), np.asarray(want)
+            if got.shape != want.shape or not np.iscomplexobj(got) or np.abs(got - want).max() > 1e-12 * (1 + np.abs(want).max()):
+                out.violation(sig0 + f"{name}|{n}x{n}|complex", f"{name} on complex {n}x{n} tensors differs from its definition "
+                              f"(result dtype {got.dtype}; imaginary part lost?)", case={'helper': name, 'n': n, 'dtype': 'complex'})
+        try:
+            if hasattr(H, 'inv'):
+                chk_c('inv', H.inv(Ac), ref_adj(sub_).astype(float) / d_[ok_] / zc)
+            if hasattr(H, 'det'):
+                chk_c('det', H.det(Ac), d_[ok_] * zc ** n)
+            chk_c('trace', H.trace(Ac), sum(sub_[i, i] for i in range(n)) * zc)
+            chk_c('transpose', H.transpose(Ac), np.transpose(sub_, (1, 0, 2)) * zc)
+            chk_c('ddot', H.ddot(Ac, Ac), np.einsum('ijk,ijk->k', sub_, sub_) * zc * zc)
+        except Exception as e:
+            out.violation(sig0 + f"complex|{n}x{n}|exception", f"a helper raised {e!r} on complex tensors", case={'n': n})
     # matrix-vector, matrix-matrix on a product grid (all matrices x a spread of vectors)
     vi = np.arange(nm) % nv
     V = vecs[:, vi]
